@@ -153,7 +153,12 @@ func newLayMachine(c *Ctx) *layMachine {
 		// a new helper that returns an instruction sequence (compileMake(tok)) is the body of the
 		// case (or a part of it) moved out: executed in place
 		if c.isNewHelper(o) && sig.Results().Len() == 1 && isInsSlice(sig.Results().At(0).Type()) {
-			return true
+			// (a helper that is handed the node; small emitters such as castTo(typ) stay summarised)
+			for i := 0; i < sig.Params().Len(); i++ {
+				if c.isTokenPtr(sig.Params().At(i).Type()) {
+					return true
+				}
+			}
 		}
 		// a new setter helper — a body of plain assignments, no calls, no branches
 		// (c.setFunc(name, scope): c.FuncName, c.typeScope = name, scope) — is executed in place
